@@ -182,6 +182,8 @@ STAKED_MODELS = [
 VENUERISK_MODELS = [
     {"name": "venuerisk", "module": "MC_VenueRisk.tla", "cfg": {"quick": "MC_VenueRiskQuick.cfg", "thorough": "MC_VenueRiskThorough.cfg"},
      "setup": "setups/venuerisk.json", "init_from_setup": True, "timeout": {"quick": 900, "thorough": 10000}},
+    {"name": "venueriskswb", "module": "MC_VenueRisk.tla", "cfg": {"quick": "MC_VenueRiskSwbQuick.cfg", "thorough": "MC_VenueRiskSwbThorough.cfg"},
+     "setup": "setups/venueriskswb.json", "init_from_setup": True, "timeout": {"quick": 900, "thorough": 10000}},
 ]
 
 
